@@ -170,7 +170,8 @@ public:
     }
     ssize_t readv(const struct iovec* iov, int iovcnt) override {
         uint64_t tm = m_timeout;
-        int o = iovcnt > 0 ? owner_of(iov[0].iov_base) : -1;
+        size_t total = 0; for (int i = 0; i < iovcnt; i++) total += iov[i].iov_len;
+        int o = total > 0 ? owner_of(iov[0].iov_base) : -1;     // an empty body names no buffer
         ssize_t ret = do_read(iov, iovcnt, true);
         ev("B%d:%d:%d:%" PRIu64 ":%zd@%" PRIu64, self_index(), o, (int)(o >= 0 && g_returned[o]), (uint64_t)tm, ret, (uint64_t)photon::now);
         return ret;
@@ -204,36 +205,41 @@ struct OwnerAlloc {
 std::vector<IOVector*> g_req, g_resp;
 std::vector<OwnerAlloc*> g_alloc;
 
-__attribute__((noinline)) void do_the_call(int i) {
-    CallSpec& c = g_calls[i];
-    g_started[i] = 1;
-    photon::Timeout tmo(c.tmo);
+std::vector<int> g_ret, g_err;
+std::vector<uint64_t> g_rett;
+// The frame of run_call holds a 64 KiB pad, so do_call's frame (with the OooArgs context) lies 64 KiB
+// below the frame of caller().  Everything the thread does after do_call has returned (logging, parking
+// in thread_usleep) is called from caller() and lands in the pad, never on the dead context — a late
+// access by the reader (F12) therefore reads the stale-but-intact context and shows up as a C/B event
+// with dead=1 instead of an uncontrolled crash.  NOTHING is called between do_call's return and the
+// return of run_call (not even the errno accessor: a first call through the PLT runs the dynamic
+// linker's lazy resolver, whose xsave area is ~2.5 KiB of stack right on top of the dead context;
+// the harness is also linked with -z now).
+__attribute__((noinline)) void run_call(int i) {
+    volatile char pad[65536];
+    pad[0] = 0; pad[sizeof pad - 1] = 0;
+    asm volatile("" : : "r"(pad) : "memory");
+    photon::Timeout tmo(g_calls[i].tmo);
     int ret = g_stub->do_call(photon::rpc::FunctionID(7, (uint32_t)i), g_req[i], g_resp[i], tmo);
-    int e = errno;
-    uint64_t t = photon::now;
-    g_returned[i] = 1;
+    g_ret[i] = ret; g_rett[i] = photon::now; g_returned[i] = 1;
+    asm volatile("" : : "r"(pad) : "memory");
+}
+void log_return(int i) {
+    int ret = g_ret[i];
     std::string hex;
     if (ret >= 0) {
         char b[4];
         for (auto& v : *g_resp[i]) for (size_t j = 0; j < v.iov_len; j++) { snprintf(b, sizeof b, "%02x", ((uint8_t*)v.iov_base)[j]); hex += b; }
     }
-    ev("E%d:%d/%d:%s@%" PRIu64, i, ret, ret < 0 ? e : 0, hex.empty() ? "-" : hex.c_str(), t);
-}
-// A deep dummy frame between the thread body and do_call: after the call has returned, the frames
-// of the thread's later calls (thread_usleep) land in the pad, not on the dead OooArgs context of
-// do_call — so a late access by the reader (F12) reads the stale-but-intact context and shows up
-// as a C/B event with dead=1 instead of an uncontrolled crash.
-__attribute__((noinline)) void run_call(int i) {
-    volatile char pad[65536];
-    pad[0] = 0; pad[sizeof pad - 1] = 0;
-    asm volatile("" : : "r"(pad) : "memory");
-    do_the_call(i);
-    asm volatile("" : : "r"(pad) : "memory");
+    ev("E%d:%d/%d:%s@%" PRIu64, i, ret, ret < 0 ? g_err[i] : 0, hex.empty() ? "-" : hex.c_str(), g_rett[i]);
 }
 void* caller(void* arg) {
     int i = (int)(intptr_t)arg;
     if (g_calls[i].start > 0) photon::thread_usleep(g_calls[i].start);
+    g_started[i] = 1;
     run_call(i);
+    g_err[i] = errno;
+    log_return(i);
     while (true) photon::thread_usleep(-1);
     return nullptr;
 }
@@ -298,7 +304,7 @@ void child_main(const std::string& line, int outfd) {
     auto stream = new ScriptStream;
     g_stub = photon::rpc::new_rpc_stub(stream, false);
     size_t k = g_calls.size();
-    g_th.assign(k, nullptr); g_returned.assign(k, 0); g_started.assign(k, 0);
+    g_th.assign(k, nullptr); g_returned.assign(k, 0); g_started.assign(k, 0); g_ret.assign(k, 0); g_err.assign(k, 0); g_rett.assign(k, 0);
     for (size_t i = 0; i < k; i++) {
         auto a = new OwnerAlloc{(int)i};
         g_alloc.push_back(a);
@@ -355,6 +361,7 @@ int main(int argc, char** argv) {
     std::string line;
     while (std::getline(in, line)) {
         if (line.empty() || line[0] == '#') continue;
+        if (getenv("C11_NOFORK")) child_main(line, 1);      // debugging aid: run the (single) case in this process
         std::string a = run_once(line, timeout_ms);
         if (twice) { std::string b = run_once(line, timeout_ms); if (a != b) a = "NONDET first{" + a + "} second{" + b + "}"; }
         printf("%s\n", a.c_str());
